@@ -12,7 +12,9 @@ void sim_atomic_point(const volatile void *addr, int kind);
 }
 #endif
 #define __atomic_load_n(p, o) (sim_atomic_point((p), 1), __atomic_load_n((p), (o)))
-#define __atomic_store_n(p, v, o) (sim_atomic_point((p), 2), __atomic_store_n((p), (v), (o)))
+/* a store publishes: what the storing thread goes on to do right after it must be interleavable with the threads that can now see the
+ * new value, so a store gets a second schedule point behind it (kind 12) */
+#define __atomic_store_n(p, v, o) (sim_atomic_point((p), 2), __atomic_store_n((p), (v), (o)), sim_atomic_point((p), 12))
 #define __atomic_exchange_n(p, v, o) (sim_atomic_point((p), 3), __atomic_exchange_n((p), (v), (o)))
 #define __atomic_compare_exchange_n(p, e, d, w, s, f)                                                                  \
     (sim_atomic_point((p), 4), __atomic_compare_exchange_n((p), (e), (d), (w), (s), (f)))
